@@ -26,7 +26,7 @@ if rev: names.reverse()
 
 # besides the target check, the checks whose subject is adjacent (a complete 60 x 20 table costs a day of CPU time)
 NEIGHBOURS = {"C01": ["C02", "C05"], "C02": ["C01", "C12"], "C03": ["C04", "C05", "C19"], "C04": ["C03"], "C05": ["C01", "C03"], "C06": ["C10", "C12", "C19"], "C07": ["C08", "C09", "C10", "C17"],
-              "C08": ["C07", "C17"], "C09": ["C07", "C10", "C20"], "C10": ["C06", "C09", "C17"], "C11": ["C10", "C13"], "C12": ["C06", "C07", "C11"], "C13": ["C11", "C14"], "C14": ["C13", "C17"],
+              "C08": ["C07", "C17"], "C09": ["C07", "C10", "C20"], "C10": ["C06", "C09", "C17"], "C11": ["C10", "C13"], "C12": ["C01", "C06", "C07"], "C13": ["C11", "C14"], "C14": ["C13", "C17"],
               "C15": ["C16", "C20"], "C16": ["C01", "C15"], "C17": ["C10", "C14"], "C18": ["C01", "C10", "C11"], "C19": ["C06", "C18"], "C20": ["C09", "C15"]}
 HEAD = subprocess.run(["git", "-C", "/repo", "rev-parse", "--short", "HEAD"], capture_output=True, text=True).stdout.strip()
 def one(name):
